@@ -57,8 +57,10 @@ void Optimizer::add_inner(Parameter &param) {
     // Parameter object.
     return;
   }
-  params_.insert(&param);
+  // Configure first: if this throws (e.g., an invalid Parameter), the pointer
+  // must not stay registered.
   configure_parameter(param);
+  params_.insert(&param);
 }
 
 void Optimizer::add_inner(const Model &model) {
